@@ -124,7 +124,7 @@ def manager_new(prog):
     errs = []
     en = [cs for cs in te.calls if cs.callee.name == "enumerate"]
     if len(en) != 1 or not mir.is_call(strip(en[0].args[0]), "inorder_dfs_iter"):
-        errs.append("the index loop does not enumerate the in-order iterator")
+        errs.append("?the index loop does not enumerate the in-order iterator")
     stores = [st for st in te.stores if mir.is_call(strip(st[1]), "index_mut") or strip(st[1])[0] == "index"]
     ok_store = False
     for st in stores:
